@@ -13,6 +13,7 @@ Definition snappy_compress_c (x : list N) (cap : N) :=
   SnappyModel.compress_c (CompMem.hash_look SnappyModel.snappy_hash x) (CompMem.hash_ins SnappyModel.snappy_hash x)
     (FMapPositive.PositiveMap.empty N) x cap.
 Definition snappy_get_len := SnappyModel.get_uncompressed_length.
+Definition snappy_varint (n : N) := SnappyModel.write_varint 5 (N.modulo n (2 ^ 32)).
 Definition lz4_spec_decode := Lz4Spec.spec_decode.
 Definition lz4_spec_decode_lax := Lz4Spec.spec_decode_lax.
 Definition lz4_check_end_rules := Lz4Spec.check_end_rules.
@@ -22,5 +23,5 @@ Definition lz4_bound := Lz4Model.compress_bound.
 
 Extraction Language OCaml.
 Extraction "extracted/comp_ext.ml"
-  snappy_spec_decode snappy_decompress snappy_decompress_pinned snappy_compress snappy_compress_c snappy_bound snappy_get_len
+  snappy_spec_decode snappy_decompress snappy_decompress_pinned snappy_compress snappy_compress_c snappy_bound snappy_get_len snappy_varint
   lz4_spec_decode lz4_spec_decode_lax lz4_check_end_rules lz4_decompress lz4_compress lz4_bound.
